@@ -1,0 +1,29 @@
+//go:build verif
+
+// Assumed contracts of the native (pre-assembled machine code) routines, as
+// seen at their Go call sites.  None of these is proved: every use is listed
+// in the evidence under "assumed contract".
+package native
+
+// The validating scanner as a deterministic function of (content, start):
+// scanRet is the return value, scanEnd the position left in *p.
+//@ pure func scanRet(s string, p int) int
+//@ pure func scanEnd(s string, p int) int
+//@ pure func isSpace(c byte) bool = c == 0x20 || c == 0x09 || c == 0x0d || c == 0x0a
+
+//@ func ValidateOne assumed "native validate_one: result is a function of the bytes of *s and *p only; start/end lie inside the input"
+//@   requires 0 <= *p && *p <= len(*s)
+//@   modifies *p
+//@   ensures result == scanRet(*s, old(*p)) && *p == scanEnd(*s, old(*p))
+//@   ensures result >= 0 ==> (old(*p) <= result && result < *p && *p <= len(*s))
+//@   ensures result >= 0 ==> (forall k int :: old(*p) <= k && k < result ==> isSpace((*s)[k]))
+//@   ensures result >= 0 ==> !isSpace((*s)[result])
+//@   ensures result < 0 ==> (0 <= *p && *p <= len(*s) + 4 && -10 <= result)
+
+//@ func SkipOne assumed "native skip_one: result is a function of the bytes of *s, *p and flags only; start/end lie inside the input"
+//@   requires 0 <= *p && *p <= len(*s)
+//@   modifies *p
+//@   ensures result >= 0 ==> (old(*p) <= result && result < *p && *p <= len(*s))
+//@   ensures result >= 0 ==> (forall k int :: old(*p) <= k && k < result ==> isSpace((*s)[k]))
+//@   ensures result >= 0 ==> !isSpace((*s)[result])
+//@   ensures result < 0 ==> (0 <= *p && *p <= len(*s) + 4 && -10 <= result)
